@@ -9,6 +9,7 @@ import warnings
 
 import numpy as np
 
+from xmc import canon as C
 from xmc import env, explore, families as F
 from xmc.evidence import Violation
 
@@ -63,7 +64,7 @@ def observables(uniform):
     O["number_connected_components"] = lambda H: xgi.number_connected_components(H)
     O["is_connected"] = lambda H: xgi.is_connected(H)
     O["largest_connected_component(size)"] = lambda H: len(xgi.largest_connected_component(H))
-    O["node_connected_component"] = lambda H: {N(n): frozenset(N(m) for m in xgi.node_connected_component(H, n)) for n in H.nodes}
+    O["node_connected_component"] = lambda H: {N(n): frozenset(N(m) for m in xgi.node_connected_component(H, C.fresh(n))) for n in H.nodes}
     O["shortest_path_length"] = lambda H: {N(s): {N(t): v for t, v in d.items()} for s, d in xgi.shortest_path_length(H)}
     for kw in ({}, {"order": 1}, {"max_order": 2}, {"ignore_singletons": True}, {"order": 2, "ignore_singletons": True}):
         O[f"density({kw})"] = lambda H, kw=kw: xgi.density(H, **kw)
